@@ -561,8 +561,121 @@ def construct_rules(chk):
             ok = False
     if not splits:
         chk.undecided(rule, ln.qual, "how load_name takes the dotted name apart was not recognised", node=ln.node, aux=True)
+    # the fallback walk: when the whole name is not a module, where the module part ends is NOT known -- the walk starts at the
+    # top-level package (components[0]) and follows ALL remaining components (components[1:]) as attributes
+    single = {}
+    for n in ast.walk(ln.node):
+        if isinstance(n, ast.Assign) and len(n.targets) == 1 and isinstance(n.targets[0], ast.Name):
+            single.setdefault(n.targets[0].id, []).append(n.value)
+    single = {k: v[0] for k, v in single.items() if len(v) == 1}
+    parts = {k for k, v in single.items() if v in splits}
+
+    def res(e, depth=0):
+        while isinstance(e, ast.Name) and e.id in single and e.id not in parts and depth < 5:
+            e = single[e.id]
+            depth += 1
+        return e
+
+    def const_int(e):
+        if e is None:
+            return None
+        if isinstance(e, ast.Constant) and isinstance(e.value, int):
+            return e.value
+        if isinstance(e, ast.UnaryOp) and isinstance(e.op, ast.USub) and isinstance(e.operand, ast.Constant) and isinstance(e.operand.value, int):
+            return -e.operand.value
+        return "?"
+
+    def part_slice(e):
+        """('index', i) / ('slice', lo, hi) of the components list, through `sep.join(...)`, else None"""
+        e = res(e)
+        if isinstance(e, ast.Call) and isinstance(e.func, ast.Attribute) and e.func.attr == "join" and len(e.args) == 1:
+            e = res(e.args[0])
+        if isinstance(e, ast.Subscript) and isinstance(e.value, ast.Name) and e.value.id in parts:
+            sl = e.slice
+            if isinstance(sl, ast.Slice):
+                return ("slice", const_int(sl.lower), const_int(sl.upper))
+            return ("index", const_int(sl))
+        return None
+
+    starts, walks = [], []
+    for n in ast.walk(ln.node):
+        if isinstance(n, ast.Subscript) and prog.resolve(ln.module, n.value) == "ext:sys.modules":
+            k = part_slice(n.slice)
+            if k is not None:
+                starts.append((n, k))
+        if isinstance(n, ast.For) and any(isinstance(c, ast.Call) and isinstance(c.func, ast.Name) and c.func.id == "getattr" for c in ast.walk(n)):
+            k = part_slice(n.iter)
+            if k is not None:
+                walks.append((n, k))
+    chk.count(len(starts) + len(walks))
+    for n, k in starts:
+        if k != ("index", 0) and k != ("slice", None, 1) and k != ("slice", 0, 1):
+            chk.bad(rule, ln.qual, "the fallback lookup starts at sys.modules[%s] instead of the top-level package: it fixes how many trailing components are attributes, so a name with another number of attribute levels (package.module.Class.factory, a nested class) ends in ImportError although it is valid" % util.unparse(n.slice), node=n, stmt="walk-start")
+            ok = False
+    for n, k in walks:
+        if k != ("slice", 1, None):
+            chk.bad(rule, ln.qual, "the fallback lookup follows only %s as attributes instead of every component after the top-level package: a name with another number of attribute levels no longer resolves" % util.unparse(n.iter), node=n, stmt="walk-range")
+            ok = False
     if ok:
         chk.ok(rule, ln.qual, "every failure to import / look up a component ends in a raise; the name is split on every dot", node=ln.node, input="%d paths" % len(outs))
+
+
+_MUTATORS = {"append", "extend", "insert", "clear", "pop", "remove", "add", "update", "setdefault", "discard", "popitem", "appendleft", "sort", "reverse"}
+
+
+def per_activation_state(chk, rule="O19.1"):
+    """translate_hierarchy is re-entrant (it calls itself for every child, directly and through super()): whatever it
+    accumulates while it walks one level must live in that activation -- a container on the instance, the class or the
+    module is shared with the activations below it, which then clear / extend the outer level's partial result"""
+    prog = chk.program
+    from . import c05
+
+    n = 0
+    ok = True
+    for cq in (TRANSLATOR, c05.PIPELINE):
+        cls = prog.cls(cq)
+        for fi in cls.methods.get("translate_hierarchy", []):
+            n += 1
+            chk.count()
+            shared = {}
+            for st in ast.walk(fi.node):
+                if isinstance(st, ast.Assign) and len(st.targets) == 1:
+                    tg, val = st.targets[0], st.value
+                    pairs = list(zip(tg.elts, val.elts)) if isinstance(tg, (ast.Tuple, ast.List)) and isinstance(val, (ast.Tuple, ast.List)) and len(tg.elts) == len(val.elts) else [(tg, val)]
+                    for t, v in pairs:
+                        if isinstance(t, ast.Name):
+                            d = util.dotted(v)
+                            if d and d.startswith("self.") and d.count(".") == 1:
+                                shared[t.id] = d
+            for n_ in ast.walk(fi.node):
+                where = None
+                if isinstance(n_, ast.Call) and isinstance(n_.func, ast.Attribute) and n_.func.attr in _MUTATORS:
+                    d = util.dotted(n_.func.value)
+                    if d and d.startswith("self.") and d.count(".") == 1:
+                        where = d
+                    elif isinstance(n_.func.value, ast.Name) and n_.func.value.id in shared:
+                        where = shared[n_.func.value.id]
+                elif isinstance(n_, (ast.Assign, ast.AugAssign)):
+                    for t in n_.targets if isinstance(n_, ast.Assign) else [n_.target]:
+                        base = t.value if isinstance(t, ast.Subscript) else t
+                        d = util.dotted(base)
+                        if d and d.startswith("self.") and d.count(".") == 1:
+                            where = d
+                        elif isinstance(t, ast.Subscript) and isinstance(base, ast.Name) and base.id in shared:
+                            where = shared[base.id]
+                if where:
+                    chk.bad(
+                        rule,
+                        fi.qual,
+                        "%s keeps state of the walk on the instance (%s, changed by %s) although it is re-entrant: the activation that translates a nested element works on the SAME object and clears / extends what the outer level has collected so far, so the outer result loses or gains elements"
+                        % (fi.name, where, util.unparse(n_)[:50]),
+                        node=n_,
+                        stmt="shared-walk-state %s" % where,
+                    )
+                    ok = False
+                    break
+    if ok:
+        chk.ok(rule, TRANSLATOR, "%d translate_hierarchy implementations keep what they collect in locals of the activation (nothing on the instance is changed during the walk)" % n)
 
 
 def run(chk):
@@ -574,5 +687,6 @@ def run(chk):
     from . import c05
 
     chk.guard("O5.3", c05.PIPELINE, c05.linking_loop, chk)
+    chk.guard("O19.1", TRANSLATOR, per_activation_state, chk)
     # "any failure to resolve or call a factory is reported": no swallowing handler around a factory call (shared with C05)
     chk.guard("O5.4", "<config modules>", c05.narrow_try, chk)
